@@ -52,18 +52,23 @@ def run_corpus(cname, workdir):
 
 # ------------------------------------------------------------------ walking the library
 def walk_functions(lib):
-    """(scope key, cls or None, node) in emission order of Wrapf"""
+    """(module key, cls or None, node) in the emission order of Wrapf.wrap_namespace; a namespace has its
+    own module unless F_flatten_namespace"""
     out = []
 
-    def ns(node, top):
+    def ns(node, module):
         for cls in node.classes:
+            if not cls.wrap.fortran:
+                continue
             for fn in cls.functions:
-                out.append((("cls", id(cls)), cls, fn))
+                out.append((module, cls, fn))
         for fn in node.functions:
-            out.append((("ns", id(node)), None, fn))
+            out.append((module, None, fn))
         for sub in node.namespaces:
-            ns(sub, False)
-    ns(lib, True)
+            if not sub.wrap.fortran:
+                continue
+            ns(sub, module if sub.options.F_flatten_namespace else id(sub))
+    ns(lib, id(lib))
     return out
 
 
@@ -75,7 +80,8 @@ class Interner:
     def __call__(self, s):
         if s is None or s == "" or s is False:
             return 0
-        s = str(s)
+        if not isinstance(s, tuple):
+            s = str(s)
         if s not in self.ids:
             self.ids[s] = self.next
             self.next += 1
@@ -116,6 +122,8 @@ def encode_fn(lib, cls, node, it, tn):
         c_meta, c_attrs = c_arg.metaattrs, c_arg.attrs
         is_result = bool(c_meta["is_result"])
         is_f_arg = not (is_result and not res_as_arg)
+        if not is_f_arg:
+            names[c_arg.name] = 0   # its Fortran variable is the function result
         if is_f_arg:
             f_index += 1
             if f_index >= len(f_args):
@@ -212,11 +220,14 @@ def norm_model_actuals(s, params_by_id, C_node):
         return []
     out = []
     for t in s.split(","):
-        if t.startswith("fc"):
+        if t.startswith("fc") or t.startswith("ca"):
             n = int(t[2:])
             a = C_node.ast.params[n - 1]
             tm = a.template_arguments[0].typemap if a.template_arguments else a.typemap
-            out.append(("v%d" if tm.f_to_c == "{f_var}" else "sh%d") % n)
+            if t.startswith("fc"):
+                out.append(("v%d" if tm.f_to_c == "{f_var}" else "sh%d") % n)
+            else:
+                out.append(("v%d" if tm.f_cast == "{f_var}" else "ca%d") % n)
         else:
             out.append(t)
     return out
@@ -243,28 +254,31 @@ def real_matched(node, C_node, fn_names, it):
 
 
 def parse_generic_interfaces(text):
-    """named interface blocks and type-bound generics of a written module: {name: [procedures]}"""
-    # join continuation lines
+    """named interface blocks and type-bound generics of one written module:
+    sorted [(kind, name, members)]; members of a type-bound generic are sorted"""
     text = re.sub(r"&\s*\n\s*&?", "", text)
-    res = {}
+    res = []
     cur = None
     for line in text.split("\n"):
         s = line.strip()
         m = re.fullmatch(r"interface (\w+)", s)
         if m:
-            cur = m.group(1)
-            res.setdefault(("i", cur), [])
+            cur = ["i", m.group(1).lower(), []]
             continue
         if re.fullmatch(r"end interface( \w+)?", s):
+            if cur is not None and cur[2]:
+                res.append((cur[0], cur[1], tuple(cur[2])))
             cur = None
             continue
         m = re.fullmatch(r"module procedure (\w+)", s)
         if m and cur:
-            res[("i", cur)].append(m.group(1))
+            cur[2].append(m.group(1).lower())
             continue
         m = re.fullmatch(r"generic :: (\w+) => (.*)", s)
         if m:
-            res.setdefault(("g", m.group(1)), []).extend(x.strip() for x in m.group(2).split(","))
+            # one entry per (generic, specific): with cpp_if the emitter writes one line per specific
+            for x in m.group(2).split(","):
+                res.append(("g", m.group(1).lower(), (x.strip().lower(),)))
     return res
 
 
@@ -306,15 +320,21 @@ class Tie:
             fargs_txt = _scope_get(fmt, "F_arguments", "")
             this = _scope_get(fmt, "F_this", "obj")
             exp_fargs = []
+            capsules = {x.attrs["capsule"] for x in [C_node.ast, node.ast] + list(C_node.ast.params) if x.attrs["capsule"]}
             for a in [x.strip() for x in fargs_txt.split(",\t ")] if fargs_txt else []:
-                exp_fargs.append(0 if (a == this and cls is not None and a not in names) else names.get(a, -1))
+                if a == this and cls is not None and a not in names:
+                    exp_fargs.append(0)
+                elif a not in names and a in capsules:
+                    exp_fargs.append(9999)
+                else:
+                    exp_fargs.append(names.get(a, -1))
             exp_acts = real_actual_tokens(_scope_get(fmt, "F_arg_c_call", ""), names, fmt, C_node, node)
             matched = real_matched(node, C_node, names, it)
             for a in C_node.ast.params:
                 fa = C_node._fmtargs.get(a.name, {}).get("fmtf")
-                s0 = _scope_get(fa, "stmt0") if fa is not None else None
-                if s0 is None:
+                if fa is None or not fa.inlocal("stmt0"):
                     continue
+                s0 = _scope_get(fa, "stmt0")
                 matched.append((stmt_ids(s0, it), stmt_ids(_scope_get(fa, "stmt1"), it)))
                 matched.append((stmt_ids(_scope_get(fa, "stmtc0"), it), stmt_ids(_scope_get(fa, "stmtc1"), it)))
                 self.entries_f.add(_scope_get(fa, "stmt1"))
@@ -324,22 +344,21 @@ class Tie:
         # ---- routing
         tab = []
         keyid = Interner({})
-        order = {id(n): k for k, (_s, _c, n) in enumerate(fns)}
+        where = {id(n): (mod, cls) for mod, cls, n in fns}
         for i, n in enumerate(index):
             fmt = n.fmtdict
             gk, gname, force = 0, 0, 0
-            sc = next(((s, c) for s, c, x in fns if x is n), (None, None))
-            if n.wrap.fortran and sc[0] is not None:
-                cls = sc[1]
+            if n.wrap.fortran and id(n) in where:
+                mod, cls = where[id(n)]
                 if n.options.class_ctor:
-                    gk, gname = 3, keyid(("i", sc[0] if cls is None else None, n.options.class_ctor))
+                    gk, gname = 3, keyid(("i", mod, n.options.class_ctor))
                 elif n.options.F_create_generic:
                     if n.ast.is_ctor():
-                        gk, gname = 3, keyid(("i", None, fmt.F_name_generic))
+                        gk, gname = 3, keyid(("i", mod, fmt.F_name_generic))
                     elif cls is not None:
-                        gk, gname = 2, keyid(("g", sc[0], fmt.F_name_generic))
+                        gk, gname = 2, keyid(("g", id(cls), fmt.F_name_generic))
                     else:
-                        gk, gname = 1, keyid(("i", None, fmt.F_name_scope + fmt.F_name_generic))
+                        gk, gname = 1, keyid(("i", mod, fmt.F_name_scope + fmt.F_name_generic))
                         force = int(n._generated == "fortran_generic")
             tab.append([0 if n._PTR_F_C_index is None else n._PTR_F_C_index + 1,
                         0 if n._PTR_C_CXX_index is None else n._PTR_C_CXX_index + 1,
@@ -347,20 +366,20 @@ class Tie:
         tabs = " ".join(",".join(map(str, t)) for t in tab)
         pre = _holder.get("F_C_name", {})
         for i, n in enumerate(index):
-            if n.wrap.fortran and any(x is n for _s, _c, x in fns):
+            if n.wrap.fortran and id(n) in where:
                 self.lines.append("route %d %s" % (i, tabs))
                 self.expect.append(("route", "%s:%s" % (tag, n.declgen or n.decl),
                                     (_scope_get(n.fmtdict, "F_C_call"), i), (pre, index)))
         # ---- generic interfaces: model over nodes in emission order
-        emis = [n for _s, _c, n in fns]
-        perm = [index.index(n) if n in index else None for n in emis]
-        if all(p is not None for p in perm) and emis:
-            self.lines.append("generics " + " ".join(",".join(map(str, tab[p])) for p in perm))
-            text = ""
+        emis = [n for _m, _c, n in fns]
+        pos = {id(n): k for k, n in enumerate(index)}
+        if emis and all(id(n) in pos for n in emis):
+            self.lines.append("generics " + " ".join(",".join(map(str, tab[pos[id(n)]])) for n in emis))
+            real = []
             for fn in sorted(os.listdir(outdir)):
                 if fn.endswith(".f") or fn.endswith(".f90") or fn.endswith(".F"):
-                    text += open(os.path.join(outdir, fn)).read() + "\n"
-            self.expect.append(("generics", tag, parse_generic_interfaces(text), (keyid, emis)))
+                    real += parse_generic_interfaces(open(os.path.join(outdir, fn)).read())
+            self.expect.append(("generics", tag, sorted(real), (keyid, emis)))
 
     def finish(self):
         ctx = self.ctx
@@ -409,26 +428,21 @@ class Tie:
                 n_gen += 1
                 keyid, emis = extra
                 inv = {v: k for k, v in keyid.ids.items()}
-                model = {}
+                model = []
                 if got != "-":
                     for g in got.split(";"):
                         k, mem = g.split(":")
                         kk = inv[int(k)]
                         members = [emis[int(x)] for x in mem.split(",")]
                         if kk[0] == "i":
-                            model[("i", kk[2])] = [m.fmtdict.F_name_impl for m in members]
+                            model.append(("i", kk[2].lower(), tuple(m.fmtdict.F_name_impl.lower() for m in members)))
                         else:
-                            model.setdefault(("g", kk[2]), []).extend(m.fmtdict.F_name_function for m in members)
-                real = {k: v for k, v in exp.items() if v}
-                # several classes may declare the same type-bound generic name: compare as sorted multisets
-                a = {k: sorted(x.lower() for x in v) if k[0] == "g" else [x.lower() for x in v] for k, v in model.items()}
-                b = {k: sorted(x.lower() for x in v) if k[0] == "g" else [x.lower() for x in v] for k, v in real.items()}
-                a = {(k[0], k[1].lower()): v for k, v in a.items()}
-                b = {(k[0], k[1].lower()): v for k, v in b.items()}
-                if a != b:
-                    bad.append({"kind": kind, "lib": tag, "model": {str(k): v for k, v in a.items()},
-                                "real": {str(k): v for k, v in b.items()}})
-                if a:
+                            for m in members:
+                                model.append(("g", kk[2].lower(), (m.fmtdict.F_name_function.lower(),)))
+                model.sort()
+                if model != exp:
+                    bad.append({"kind": kind, "lib": tag, "model": model, "real": exp})
+                if model:
                     ctx.nontrivial(("generics", tag))
         return bad, {"assembled_functions": n_asm, "routes": n_route, "generic_tables": n_gen, "skipped": self.skipped,
                      "f_entries_reached": sorted(x for x in self.entries_f if x), "c_entries_reached": sorted(x for x in self.entries_c if x)}
